@@ -108,6 +108,11 @@ def run(ctx):
         table = json.load(open(os.path.join(kv.BUILD, "c10", "accesses.json")))
         for k in ("racy", "excluded", "unresolved", "confinement", "annotations_used"):
             table[k] = table.get(k) or []
+    for m in (table.get("missed_sites") or [])[:20]:
+        broken.append({"kind": "obligation", "name": "translation incomplete: a field selection of a tracked type produced no table row", "detail": m})
+    if table.get("lock_ops_in_source") != table.get("lock_ops_in_skeletons"):
+        broken.append({"kind": "obligation", "name": "translation incomplete: lock operations in the sources vs in the skeletons",
+                       "detail": "%s in the sources, %s translated" % (table.get("lock_ops_in_source"), table.get("lock_ops_in_skeletons"))})
     for c in table["confinement"]:
         broken.append({"kind": "obligation", "name": "annotation side condition violated", "detail": c})
     table_sites = {(r["file"], r["line"]) for r in table["rows"]}
@@ -264,7 +269,20 @@ def run(ctx):
                              "excluded_rows": len(table["excluded"]), "unprotected_pairs": len(table["racy"]),
                              "global_variables": sum(1 for f in {r["field"] for r in table["rows"]} if f.startswith("global:")),
                              "pointer_aliases_followed": table.get("pointer_aliases") or [],
-                             "interface_call_edges_added": table.get("interface_call_edges", 0)}
+                             "interface_call_edges_added": table.get("interface_call_edges", 0),
+                             "field_selections_without_row": len(table.get("missed_sites") or []),
+                             "lock_ops_in_source": table.get("lock_ops_in_source"), "lock_ops_in_skeletons": table.get("lock_ops_in_skeletons")}
+    try:
+        sk_src = open(os.path.join(kv.LEAN, "KafkaVerif", "Gen", "Skeletons.lean")).read()
+        mex = re.search(r"def exemptOcc : List Nat := \[([^\]]*)\]", sk_src)
+        exempt = [int(v) for v in mex.group(1).split(",") if v.strip()] if mex else []
+    except OSError:
+        exempt = []
+    if exempt:
+        by_occ2 = {r.get("occ"): r for r in table["rows"]}
+        lockfacts["exempt_rows"] = len(exempt)
+        ctx.notes.append("rows whose function uses goto/fallthrough (locksets not re-derived from skeletons, Go-side dataflow assumed): " +
+                         ", ".join(sorted({"%s:%d %s" % (by_occ2[o]["file"], by_occ2[o]["line"], by_occ2[o]["func"]) for o in exempt if o in by_occ2})[:20]))
     if lockfacts.get("unjustified_rows") or lockfacts.get("lowered_entries"):
         broken.append({"kind": "obligation", "name": "locksets of the access table not re-derived by the verified analysis of the skeletons",
                        "detail": "unjustified rows: %s; entry locksets lowered by the fixpoint: %s" % (lockfacts.get("unjustified_sites"), lockfacts.get("lowered_entries"))})
